@@ -43,8 +43,12 @@ def run(p: Program, rep: Report, tier: str) -> None:
             return ["StopIteration", ANY_EXC]  # the user's generator may raise anything
         if callee[0] == "builtin" or callee[0] in ("getitem", "setitem", "delitem"):
             return []
-        if callee[0] == "attr" and callee[2] in ("cancel", "done", "empty", "get_nowait", "exception", "put", "put_nowait"):
-            return []  # queue/future bookkeeping: does not raise in this model (a blocked put is R6.3's subject)
+        if callee[0] == "attr" and callee[2] in ("put", "put_nowait"):
+            # a blocking put does not raise (that it may block forever is R6.3's subject); a timed / non-blocking one raises Full
+            timed = callee[2] == "put_nowait" or (isinstance(node, ast.Call) and (len(node.args) > 1 or any(k.arg in ("timeout", "block") for k in node.keywords)))
+            return ["queue.Full"] if timed else []
+        if callee[0] == "attr" and callee[2] in ("cancel", "done", "empty", "get_nowait", "exception"):
+            return []  # queue/future bookkeeping: does not raise in this model
         if callee[0] == "attr" and callee[2] == "get":
             return ["queue.Empty"]
         if callee == ("ext", "asyncio.wait_for"):
